@@ -1436,7 +1436,7 @@ class C12Check(_MolCheck):
     def budgets(self, tier):
         if tier == 'thorough':
             return {'runs': 400000, 'determinism': 300, 'wall': 3000}
-        return {'runs': 20000, 'determinism': 60, 'wall': 600}
+        return {'runs': 20000, 'determinism': 60, 'wall': 1800}
 
 
 class C02Check(_MolCheck):
@@ -1452,7 +1452,7 @@ class C02Check(_MolCheck):
     def budgets(self, tier):
         if tier == 'thorough':
             return {'runs': 200000, 'determinism': 300, 'wall': 3000}
-        return {'runs': 12000, 'determinism': 60, 'wall': 600}
+        return {'runs': 12000, 'determinism': 60, 'wall': 1800}
 
 
 CHECK_C12 = core.register(C12Check())
@@ -1472,7 +1472,7 @@ class C03MCheck(_MolCheck):
     def budgets(self, tier):
         if tier == 'thorough':
             return {'runs': 100000, 'determinism': 200, 'wall': 2400}
-        return {'runs': 6000, 'determinism': 40, 'wall': 600}
+        return {'runs': 6000, 'determinism': 40, 'wall': 1800}
 
 
 CHECK_C03M = core.register(C03MCheck())
